@@ -247,7 +247,11 @@ func (e *fnEnc) libCall(v ssa.Value, fn *ssa.Function, c *ssa.CallCommon, args [
 		return
 	}
 	if stdlibCallbacks[name] {
-		e.havocSummary(nil, true)
+		if cs := e.vc.P.callbackSummary(c); cs != nil && !cs.All {
+			e.havocSummary(cs, false)
+		} else {
+			e.havocSummary(nil, true)
+		}
 	}
 	if stdlibArgWriters[name] {
 		w := map[string]bool{}
